@@ -15,7 +15,7 @@ func init() {
 			"the sync manager's unchecked store is used only on the re-sync branch; (R2.2) appendStore.Put holds its mutex over the whole check-and-write, forwards to the inner store only where round == last+1, " +
 			"never forwards a same-round beacon, reports 'already stored' only for byte-identical signature and previous signature, and advances `last` only after the inner Put succeeded; " +
 			"(R2.3) schemeStore.Put forwards only after the previous-signature link was checked (chained) or stripped on the very beacon that is forwarded (unchained); (R2.4) the aggregator appends only last+1 and " +
-			"treats only success or already-stored as appended; (R2.5) destructive writers (Del, raw overwrite) are confined to the operator command and the verified repair path. " +
+			"treats only success or already-stored as appended; (R2.5) destructive writers (Del, raw overwrite) are confined to the operator command and the verified repair path; (R2.6) every layer of the store stack reports success only if the layer below it stored the beacon. " +
 			"NOT decided: byte-identity across honest nodes (needs BLS uniqueness), gap-freeness over restart histories.",
 		RuleText:    "one obligation per layering edge, guard, lock span and destructive writer",
 		Assumptions: []string{"uint64 wrap-around of round numbers is ignored"},
@@ -29,6 +29,29 @@ func runC02(c *Ctx) {
 	ruleSchemeStorePut(c, "R2.3")
 	ruleTryAppend(c, "R2.4")
 	ruleDestructiveWriters(c, "R2.5")
+	ruleLayersPropagateFailure(c, "R2.6")
+	ruleMemDB(c, "R2.7") // the in-memory back-end keeps the newest rounds, ordered and without duplicates
+}
+
+// R2.6: every layer of the store stack reports success only when the layer below stored the beacon. A layer that swallows
+// the failure lets the layers above (append store: last; callbacks: subscribers) advance over a round that is not on disk.
+func ruleLayersPropagateFailure(c *Ctx, rule string) {
+	c.ranRules[rule] = true
+	n := 0
+	for _, fn := range c.P.SubjectFns() {
+		if isControlFn(fn) || fn.Parent() != nil || baseName(fn) != "Put" || fn.Signature.Recv() == nil || fnPkgPath(fn) != pkBeacon {
+			continue
+		}
+		inner := innerPutCall(fn)
+		if inner == nil {
+			continue
+		}
+		n++
+		ok := nilReturnImpliesOK(fn, inner)
+		c.Ok(rule, fnShort(fn)+" reports success only if the wrapped store's Put succeeded", shortPos(c.P, inner), ok,
+			"every return with a nil error is reached only through the success edge of the inner Put (or returns that Put's own error)")
+	}
+	c.Floor(rule, "store layers forwarding Put", n, 4)
 }
 
 // argOfCallResult: v is (an Extract of / conversion of) a call to a function with the suffix; returns the call.
